@@ -34,6 +34,8 @@ def script_of(h):
             hasq = True
         elif o == "enq":
             ops.append("enq " + s["m"])
+        elif o == "wcreate":
+            ops.append("wcreate " + s.get("kind", "poll"))
         elif o == "wjoin":
             ops.append("wjoin " + ("long" if s["long"] else "short"))
         else:
